@@ -5,6 +5,7 @@ descriptor the step declares (type/format/constraints/missingValues) -> per cell
 the expected output, handler call log or raised error is derived from that map and the policy.
 """
 import copy
+import decimal
 
 import tableschema
 from tableschema.exceptions import CastError
@@ -46,6 +47,9 @@ TYPES = {
     'boolean_native': ({'type': 'boolean'}, [True, 1, False, 0, 1.0, 'true', 'false', None]),
     'number_native': ({'type': 'number'}, [1, True, 1.5, 1.0, False, 0, '0', None]),
     'year_native': ({'type': 'year'}, [2020, 2020.0, True, '2020', 20, None]),
+    # values on which Table Schema's caster fails with something else than CastError
+    'integer_from_huge_decimal': ({'type': 'integer'}, [1, 2, decimal.Decimal('Infinity'), decimal.Decimal('1E+400'), 3, None]),
+    'duration_minimum': ({'type': 'duration', 'constraints': {'minimum': 'P1D'}}, ['P2D', 'P1Y', 'P10D', 'PT1H', '']),
 }
 POLICIES = ['default', 'raise', 'drop', 'ignore', 'clear', 'custom4', 'custom5']
 FORMS = ['set_type', 'set_type', 'set_type', 'validate_schema', 'validate_fn', 'validate_field_fn']
@@ -239,7 +243,8 @@ def run_case(case):
                   try:
                       new[n] = fobj[n].cast_value(v)
                       nvalid += 1
-                  except CastError:
+                  except (CastError, ArithmeticError, TypeError, ValueError):
+                      # uncastable is uncastable, whichever exception the reference caster lets escape
                       bad.append(n)
                       ninvalid += 1
           counters['bad_cells_expected'] += len(bad)
@@ -358,7 +363,7 @@ def _ok(field, v):
     try:
         field.cast_value(v)
         return True
-    except CastError:
+    except (CastError, ArithmeticError, TypeError, ValueError):
         return False
 
 
